@@ -38,6 +38,7 @@ class Ctx:
         self.no_inline = set(no_inline)
         self.counter = 0
         self.warnings = []
+        self.frames = []
         self.facts = {}                   # scenario facts: term -> constant (e.g. ('ndim', sigs) -> 2)
 
     # a specification run may call functions of the analysed package: they resolve through ``fallback`` and are
@@ -70,6 +71,7 @@ class Ctx:
     def event(self, kind, name, args=(), kwargs=(), guard=TRUE, loops=(), where='', extra=None):
         e = {'kind': kind, 'name': name, 'args': tuple(args), 'kwargs': tuple(sorted(kwargs.items())) if isinstance(kwargs, dict) else tuple(kwargs),
              'guard': guard, 'loops': tuple(loops), 'where': where}
+        e['perm'] = tuple(self.frames[-1].perm) if self.frames else ()     # conditions established by earlier guards (early return / raise)
         if extra:
             e.update(extra)
         self.trace.append(e)
@@ -139,7 +141,11 @@ class Frame:
 
     # ------------------------------------------------------------------ running
     def run(self):
-        out = self.block(self.fn.body)
+        self.ctx.frames.append(self)
+        try:
+            out = self.block(self.fn.body)
+        finally:
+            self.ctx.frames.pop()
         final = out.term if isinstance(out, Ret) else (None if out == RAISE else NONE)
         for cond, term in reversed(self.pending):
             final = term if final is None else T.gamma(cond, term, final)
@@ -789,14 +795,14 @@ class Frame:
             if b[0] in ('dict', 'table') and T.isconst(a):
                 r = a[1] in dict(b[1])
                 return C(r if op == 'In' else not r)
-            if b[0] == 'keys' and T.isconst(a):
+            if b[0] == 'keys' and T.isconst(a) and b[1] is not None:
                 r = a[1] in b[1]
                 return C(r if op == 'In' else not r)
             if b[0] == 'set':
                 b = ('tuple', b[1])
         if op in ('Is', 'IsNot', 'Eq', 'NotEq') and (a == NONE or b == NONE):
             other = b if a == NONE else a
-            if (other[0] == 'param' and self.ctx.kinds.get(other[1]) not in (None, 'none')) or other[0] in ('atom', 'col', 'obj', 'nd'):
+            if (other[0] == 'param' and self.ctx.kinds.get(other[1]) not in (None, 'none')) or other[0] in ('atom', 'col', 'obj', 'nd', 'shaped', 'table', 'dict', 'list', 'tuple', 'arr', 'map'):
                 return C(op in ('IsNot', 'NotEq'))      # typed scenario value: never None
         if op in ('Eq', 'NotEq') and a[0] == b[0] == 'tuple' and len(a[1]) == len(b[1]) and all(T.isconst(x) for x in a[1] + b[1]):
             r = a == b
@@ -857,9 +863,12 @@ class Frame:
         if a in ('iloc', 'loc'):
             return ('indexer', a, b)
         if a == 'ndim':
+            if b[0] == 'shaped':
+                return C(len(b[2]))
             return self.ctx.facts.get(('ndim', b), ('ndim', b))
         if a == 'shape':
-            return T.call('shape', (b,))
+            from .calls import shape_of
+            return shape_of(b)
         if a == 'T':
             return T.call('transpose', (b,))
         return ('attr', b, a)
